@@ -160,13 +160,27 @@ func C11(tier string) int {
 	allStrings(alphabet, maxLen, checkString)
 	// long literals: lengths around powers of two, one special character (quote, backslash, line feed, a
 	// multi-byte character) at the start, in the middle and at the end of a run of plain letters
+	// the plain run cycles through different letters (so that a dropped, repeated or shifted byte changes the
+	// string) and puts n, t, r, f right behind the special character at some offset
+	plain := func(n, off int) string {
+		const cyc = "ntrfabcdxyz"
+		b := make([]byte, n)
+		for i := range b {
+			b[i] = cyc[(i+off)%len(cyc)]
+		}
+		return string(b)
+	}
 	for _, n := range []int{7, 8, 9, 15, 16, 17, 31, 32, 33, 63, 64, 65, 255, 256, 257, 1023, 1024, 1025, 4096} {
 		checkString(strings.Repeat("a", n))
+		checkString(plain(n, 4))
 		for _, sp := range []string{`"`, `\`, "\n", "é", `\n`, `\"`} {
-			checkString(sp + strings.Repeat("a", n-1))
-			checkString(strings.Repeat("a", n/2) + sp + strings.Repeat("a", n-n/2-1))
-			checkString(strings.Repeat("a", n-1) + sp)
+			for off := 0; off < 4; off++ {
+				checkString(sp + plain(n-1, off))
+				checkString(plain(n/2, off+1) + sp + plain(n-n/2-1, off))
+			}
+			checkString(plain(n-1, 5) + sp)
 			checkString(strings.Repeat("a", n/2) + sp + strings.Repeat("é", n-n/2-1) + sp)
+			checkString(sp + plain(n/3, 0) + sp + plain(n/3, 1) + sp + plain(n/3, 2))
 		}
 	}
 	// all lexer-valid literal bodies
